@@ -1,0 +1,88 @@
+//go:build verif
+
+package multisigsc
+
+import (
+	"encoding/hex"
+
+	c_state "0chain.net/chaincore/chain/state"
+	"0chain.net/core/encryption"
+	"github.com/0chain/common/core/util"
+)
+
+// Verification hook (build tag `verif` only): read-only snapshots of a multi-sig
+// wallet and of one proposal, decoded with the contract's own keys and types.
+// Add-only; not compiled without the tag.
+
+// VerifProposal is a stored proposal.
+type VerifProposal struct {
+	Exists            bool
+	ProposalID        string
+	Expiration        int64
+	From, To          string
+	Amount            uint64
+	ThresholdIDs      []string // as stored, in voting order
+	Voters            []string // client ids of the voters (resolved through the wallet), "" if unresolvable
+	NumSignatures     int
+	ClientSignature   string
+	ExecutedInTxnHash string
+}
+
+// VerifWallet reads the registered wallet of clientID (ok = false: none).
+func VerifWallet(balances c_state.CommonStateContextI, clientID string) (w Wallet, ok bool, err error) {
+	err = balances.GetTrieNode(getWalletKey(clientID), &w)
+	switch err {
+	case nil:
+		return w, true, nil
+	case util.ErrValueNotPresent:
+		return Wallet{}, false, nil
+	default:
+		return Wallet{}, false, err
+	}
+}
+
+// VerifSignerIDs lists the client ids of the wallet's registered signers (hash of each signer public key).
+func VerifSignerIDs(w Wallet) []string {
+	out := make([]string, 0, len(w.SignerPublicKeys))
+	for _, key := range w.SignerPublicKeys {
+		b, err := hex.DecodeString(key)
+		if err != nil {
+			out = append(out, "")
+			continue
+		}
+		out = append(out, encryption.Hash(b))
+	}
+	return out
+}
+
+// VerifProposalSnapshot reads the proposal (walletID, proposalID) as it is stored.
+func VerifProposalSnapshot(balances c_state.CommonStateContextI, walletID, proposalID string) (VerifProposal, error) {
+	p := proposal{}
+	err := balances.GetTrieNode(getProposalKey(walletID, proposalID), &p)
+	if err == util.ErrValueNotPresent {
+		return VerifProposal{ProposalID: proposalID}, nil
+	}
+	if err != nil {
+		return VerifProposal{}, err
+	}
+	out := VerifProposal{Exists: !p.isEmpty(), ProposalID: p.ProposalID, Expiration: int64(p.ExpirationDate),
+		From: p.Transfer.ClientID, To: p.Transfer.ToClientID, Amount: uint64(p.Transfer.Amount),
+		ThresholdIDs: append([]string{}, p.SignerThresholdIDs...), NumSignatures: len(p.SignerSignatures),
+		ClientSignature: p.ClientSignature, ExecutedInTxnHash: p.ExecutedInTxnHash}
+	w, ok, err := VerifWallet(balances, walletID)
+	if err != nil {
+		return VerifProposal{}, err
+	}
+	for _, id := range p.SignerThresholdIDs {
+		voter := ""
+		if ok {
+			if key := w.publicKeyForThresholdID(id); key != "" {
+				if b, err := hex.DecodeString(key); err == nil {
+					voter = encryption.Hash(b)
+				}
+			}
+		}
+		out.Voters = append(out.Voters, voter)
+	}
+	return out, nil
+}
